@@ -38,6 +38,8 @@ function __beh(id, k, val, tag) {
   return function () { __log.push(id + tag); if (k === "p") return val; if (k === "o") return {}; throw val; };
 }
 function __id(o) { for (var k in __R) { if (__R[k] === o) return "o" + k; } return "o?"; }
+var __setv;
+function __same(a, b) { return a === b ? (a !== 0 || 1 / a === 1 / b) : (a !== a && b !== b); }
 `
 
 // ES5 own property names of the built-in prototype objects that can sit on the chain of an `in` operand
@@ -136,6 +138,9 @@ func parseOb(t string) *ob {
 type exBuild struct {
 	w     []string
 	pos   int
+	depth int
+	seen  []int  // ids of the object leaves in parse order (with repetitions)
+	check string // JS expression for the value a compound assignment at the root must have stored ("" = none)
 	vm    *otto.Otto
 	objs  map[int]*ob
 	order []*ob
@@ -154,6 +159,7 @@ func (p *exBuild) leafVar(tok string) string {
 	name := fmt.Sprintf("x%d", p.leaf)
 	if strings.HasPrefix(tok, "O(") {
 		o := parseOb(tok)
+		p.seen = append(p.seen, o.id)
 		if _, ok := p.objs[o.id]; !ok {
 			p.objs[o.id] = o
 			p.order = append(p.order, o)
@@ -172,7 +178,46 @@ var bopJS = map[string]string{
 }
 
 func (p *exBuild) expr() string {
+	p.depth++
+	defer func() { p.depth-- }()
 	switch k := p.next(); k {
+	case "A": // leaf op= expr
+		op := bopJS[p.next()]
+		kind := p.w[p.pos]
+		l := p.expr()
+		if p.depth == 1 && kind == "v" {
+			p.check = l
+		}
+		return "(" + l + " " + op + "= " + p.expr() + ")"
+	case "M": // b[k] op= expr; every object leaf of b gets the described property "p"
+		op := bopJS[p.next()]
+		n0 := len(p.seen)
+		b := p.expr()
+		holders := append([]int{}, p.seen[n0:]...)
+		k := p.expr()
+		switch p.next() {
+		case "d":
+			x := p.leafVar(p.next())
+			for _, id := range holders {
+				fmt.Fprintf(&p.late, "__R[%d].p = %s;\n", id, x)
+			}
+			if p.depth == 1 && len(holders) > 0 {
+				p.check = fmt.Sprintf("__R[%d].p", holders[len(holders)-1])
+			}
+		case "a":
+			gt, st := p.next(), p.next()
+			x := p.leafVar(p.next())
+			for _, id := range holders {
+				fmt.Fprintf(&p.late, "Object.defineProperty(__R[%d], \"p\", {get: function () { __log.push(%q); return %s; }, set: function (v) { __log.push(%q); __setv = v; }, configurable: true});\n", id, gt, x, st)
+			}
+			if p.depth == 1 {
+				p.check = "__setv"
+			}
+		default:
+			panic("bad property description")
+		}
+		return "(" + b + "[" + k + "] " + op + "= " + p.expr() + ")"
+
 	case "v":
 		return p.leafVar(p.next())
 	case "U":
@@ -365,7 +410,15 @@ func implEx(f []string) string {
 	if _, err := vm.Run(`__log = []; var __r, __t, __threw = false; try { __r = ` + src + ` } catch (e) { __threw = true; __t = e }`); err != nil {
 		return "run-error:" + h.Sanitize(err.Error())
 	}
-	return ops2Result(vm)
+	res := ops2Result(vm)
+	if p.check != "" && !strings.HasPrefix(res, "throw:") {
+		// PutValue: the variable / data property / setter received the value of the expression
+		ok, err := vm.Run("__same(" + p.check + ", __r)")
+		if b, _ := ok.ToBoolean(); err != nil || !b {
+			return "stored-mismatch:" + res
+		}
+	}
+	return res
 }
 
 func ops2Result(vm *otto.Otto) string {
@@ -848,7 +901,13 @@ func (g *gen2) tree(depth int, root bool) string {
 		}
 		return e
 	}
-	switch g.r.Intn(10) {
+	switch g.r.Intn(11) {
+	case 10:
+		op := numOps2[g.r.Intn(len(numOps2))]
+		if op == "div" {
+			op = "mul"
+		}
+		return g.assignExpr(op, depth-1)
 	case 0, 1:
 		return "u " + unOps2[g.r.Intn(len(unOps2))] + " " + g.tree(depth-1, false)
 	case 2, 3, 4:
@@ -879,6 +938,76 @@ func (g *gen2) tree(depth int, root bool) string {
 	}
 }
 
+// ---- compound assignment
+
+func (g *gen2) holder() *ob {
+	return &ob{id: g.freshID(), kind: "p", v: g.beh(), s: g.beh(), fk: "-", chain: []int{idObjectProto}}
+}
+
+// an expression that evaluates to the holder object (or, rarely, to undefined/null)
+func (g *gen2) baseExpr() string {
+	h := "v " + g.holder().tok()
+	switch g.r.Intn(12) {
+	case 0:
+		return "v n"
+	case 1:
+		return "q B v u"
+	case 2:
+		return "c " + g.leaf(g.anyVal(), false) + " " + h + " v n"
+	case 3, 4, 5, 6:
+		return "q B " + h
+	}
+	return h
+}
+
+// an expression whose ToString is "p" (or which throws on the way)
+func (g *gen2) keyExpr() string {
+	pk := "p" + h.BytesTok("p")
+	var k string
+	switch g.r.Intn(8) {
+	case 0, 1:
+		k = h.BytesTok("p")
+	case 2:
+		k = (&ob{id: g.freshID(), kind: "p", v: pk, s: []string{"n", "o"}[g.r.Intn(2)], fk: "-", chain: []int{idObjectProto}}).tok()
+	case 3:
+		k = (&ob{id: g.freshID(), kind: "p", v: g.beh(), s: "t" + g.prim(), fk: "-", chain: []int{idObjectProto}}).tok()
+	default:
+		k = (&ob{id: g.freshID(), kind: []string{"p", "d", "a"}[g.r.Intn(3)], v: g.beh(), s: pk, fk: "-", chain: []int{idObjectProto}}).tok()
+	}
+	o := "v " + k
+	if g.r.Chance(15) {
+		o = fmt.Sprintf("g GK %s", k)
+	}
+	if g.r.Chance(50) {
+		o = "q K " + o
+	}
+	return o
+}
+
+func (g *gen2) assignExpr(op string, depth int) string {
+	r := g.tree(depth, false)
+	if g.r.Chance(60) {
+		r = "q R " + r
+	}
+	if g.r.Bool() {
+		return "A " + op + " " + g.leaf(g.anyVal(), true) + " " + r
+	}
+	prop := "d " + g.anyVal()
+	if g.r.Chance(60) {
+		prop = "a G S " + g.anyVal()
+	}
+	return "M " + op + " " + g.baseExpr() + " " + g.keyExpr() + " " + prop + " " + r
+}
+
+func (g *gen2) genAssign() {
+	n := g.c.N(9000, 200000)
+	for i := 0; i < n; i++ {
+		g.reset()
+		op := numOps2[g.r.Intn(len(numOps2))]
+		g.c.Add("ex "+g.assignExpr(op, g.r.Intn(2)), "ex:asg:"+op)
+	}
+}
+
 func (g *gen2) genTrees() {
 	n := g.c.N(8000, 250000)
 	for i := 0; i < n; i++ {
@@ -902,5 +1031,6 @@ func genOps2(c *h.Ctx) {
 	g.genIn()
 	g.genLogical(vals)
 	g.genOrder()
+	g.genAssign()
 	g.genTrees()
 }
